@@ -289,7 +289,8 @@ func (w *world) protocol(t *rt.Tape, trace bool, res *core.Result, smp *sample, 
 		digest       [32]byte
 		gDone, eDone bool
 		restarts     string
-		entropyFail  int // >= 0: the first attempt at round 3 gets a randomness source that fails after that many bytes; the garbler then tries again
+		sameRand     bool // the evaluator's randomness source yields the same bytes as the garbler's
+		entropyFail  int  // >= 0: the first attempt at round 3 gets a randomness source that fails after that many bytes; the garbler then tries again
 	}
 	rH := simrand.Stream("harness2")
 	ss := make([]*sess, nSess)
@@ -297,6 +298,10 @@ func (w *world) protocol(t *rt.Tape, trace bool, res *core.Result, smp *sample, 
 		x := &sess{pattern: t.Choose(rt.SFault, 32), a: a, b: b, entropyFail: -1}
 		if t.Choose(rt.SFault, 5) == 0 {
 			x.entropyFail = t.Choose(rt.SFault, 9000)
+		}
+		if t.Choose(rt.SGen, 30) == 0 {
+			x.sameRand = true
+			res.Reach["randomness.both-parties-draw-the-same-bytes"]++
 		}
 		if t.Choose(rt.SFault, 8) == 0 {
 			x.pattern = 31
@@ -426,6 +431,11 @@ func (w *world) protocol(t *rt.Tape, trace bool, res *core.Result, smp *sample, 
 				}()
 				x.eErr = safe("evaluator", func() error {
 					rng := simrand.Stream(fmt.Sprintf("E%d#0", i))
+					if x.sameRand {
+						// both parties draw the same random bytes (machines cloned from one image, a
+						// demo with one fixed seed): the protocol must still compute the digest
+						rng = simrand.Twin(fmt.Sprintf("G%d#0", i))
+					}
 					b1, err := recvMsg(eb)
 					if err != nil {
 						return err
